@@ -6,8 +6,6 @@ LEVEL = 'exploration'
 KNOWN = {
     'crash:IndexError@strategies.py:resolve_strategy_inline_outputs': 'C03-inline-outputs-append',
     'crash:TypeError@strategies.py:<genexpr>': 'C03-none-diff-bundle',
-    'crash:TypeError@strategies.py:collect_diffs': 'C03-none-diff-collect',
-    'crash:TypeError@strategies.py:adjust_patch_level': 'C03-none-diff-collect',
     'crash:KeyError@strategies.py:resolve_strategy_inline_attachments': 'C03-attachments-keyerror',
     'crash:ValueError@strategies.py:resolve_strategy_inline_recurse': 'C03-similar-insert-attachments',
     'crash:AssertionError@strategies.py:resolve_strategy_inline_recurse': 'C03-similar-insert-celltype',
